@@ -48,6 +48,7 @@ def Region.Proved (tol : Tol ℝ) : Region ℝ → Prop
   | .ppiped h sa ca st ct sp cp =>
     0 < h.x ∧ 0 < h.y ∧ 0 < h.z ∧ sa = 0 ∧ ca = 1 ∧ st = 0 ∧ ct = 1 ∧ sp = 0 ∧ cp = 1
   | .wedge ss cs se ce => ss * ss + cs * cs = 1 ∧ se * se + ce * ce = 1
+  | .genprism .. => False
 
 theorem region_emit_sound (tol : Tol ℝ) (r : Region ℝ) (hp : r.Proved tol) (q : Vec3 ℝ)
     (hoff : OffSurfaces (r.emit tol) q) : r.mem q = true ↔ Holds (r.emit tol) q := by
@@ -69,6 +70,7 @@ theorem region_emit_sound (tol : Tol ℝ) (r : Region ℝ) (hp : r.Proved tol) (
     obtain ⟨h1, h2, h3, rfl, rfl, rfl, rfl, rfl, rfl⟩ := hp
     exact emitPpiped_box_sound h q h1 h2 h3 hoff
   | wedge ss cs se ce => exact emitWedge_sound ss cs se ce q hoff
+  | genprism hz lo hi dg => exact hp.elim
 
 theorem makeUnit_unit (v : Vec3 ℝ) (hv : 0 < v.x * v.x + v.y * v.y + v.z * v.z) :
     (makeUnit v).x * (makeUnit v).x + (makeUnit v).y * (makeUnit v).y
@@ -131,5 +133,6 @@ theorem region_unitNormals (tol : Tol ℝ) (r : Region ℝ) (hp : r.Proved tol) 
     rcases hq with rfl | rfl
     · simp only [Surface.UnitNormal]; num_simp; nlinarith [h1]
     · simp only [Surface.UnitNormal]; num_simp; nlinarith [h2]
+  | genprism hz lo hi dg => exact hp.elim
 
 end CelerVerif.Solids
